@@ -935,6 +935,11 @@ func newScanner(i io.Reader) *bufio.Scanner {
 				// We have a line terminated by single newline.
 				return i + 1, data[0:i], nil
 			}
+			// We have a carriage return at the end of the buffered data: request more data to know
+			// whether it is followed by a newline, unless there's no more data.
+			if i == len(data)-1 && !atEOF {
+				return 0, nil, nil
+			}
 			advance = i + 1
 			if len(data) > i+1 && data[i+1] == '\n' {
 				advance += 1
